@@ -211,7 +211,8 @@ def check_script(kind, script, err, resolved, records, unknown):
 
 # ---------------------------------------------------------------------------------------------- execution
 
-SPEC_LINES = ["echo a > f1", 'echo "q $V" >> f2', "printf '%s\\n' '$no {memory} %d {queue}'", "false", "exit 3", "cat <<EOF\nhere {cores} doc\nEOF", "echo err >&2"]
+SPEC_LINES = ["echo a > f1", 'echo "q $V" >> f2', "printf '%s\\n' '$no {memory} %d {queue}'", "false", "exit 3", "cat <<EOF\nhere {cores} doc\nEOF", "echo err >&2",
+              "false | cat >> f2"]  # a pipeline whose first stage fails succeeds in bash (no pipefail): the spec goes on
 DIRNAMES = ["plain", "with space", "quo'te", 'dq"x', "do$llar", "semi;colon", "amp&and", "star*", "(paren)", "tilde~", "back\\slash", "#hash"]
 MODES = [("slurm", "full"), ("slurm", "merged"), ("slurm", "none"), ("sge", None), ("lsf", None)]
 
@@ -399,7 +400,7 @@ def run(ctx):
             if opt in DEFAULTS[kind] and (kind, opt) != ("sge", "memory"):  # SGE memory is documented as a string with a unit and is divided by the core count
                 opt_items.append((kind, opt, a, b))
     ctx.pmap(me, "options_batch", opt_items, chunk=1)
-    ctx.pmap(me, "sge_memory_batch", [(m, c) for m in ("absent", "8g", "9g", "1000m", None) for c in ("absent", 1, 2, 4, None)], chunk=5)
+    ctx.pmap(me, "sge_memory_batch", [(m, c) for m in ("absent", "8g", "9g", "1000m", "8G", "1000M", "2T", None) for c in ("absent", 1, 2, 4, None)], chunk=5)
     sp = specs(3 if quick else 4)
     ex_items = [(s, "plain", m) for s in sp for m in MODES]
     ex_items += [(s, d, m) for s in ("echo a > f1\necho \"q $V\" >> f2\n", "echo a > f1\nfalse\necho b > f3\n") for d in DIRNAMES for m in (MODES if not quick else MODES[::2])]
